@@ -74,16 +74,20 @@ def assets(chk, wd, seed, quick):
     # binding self-test: one wrong byte, one wrong position
     st = os.path.join(wd, "assets_selftest.ndjson")
     n = 0
+    tail = 0
     with open(trace) as f, open(st, "w") as g:
         for i, line in enumerate(f):
             e = json.loads(line)
             if e.get("op") == "read" and e["res"]["kind"] == "ok" and e["res"]["bytes"] and n == 0:
                 e["res"]["bytes"][0] ^= 1; n += 1
-            elif e.get("op") == "seek" and e["res"]["kind"] == "ok" and n == 1 and i > 70:
-                e["res"]["pos"] += 1; n += 1
+                at = i
+            elif e.get("op") == "seek" and e.get("whence") == "start" and e["res"]["kind"] == "ok" and n == 1 and i > at + 70:
+                e["res"]["pos"] += 1; n += 1        # an absolute seek reports exactly the requested position
             g.write(json.dumps(e) + "\n")
-            if i > 400:
-                break
+            if n == 2:
+                tail += 1
+                if tail > 30:
+                    break
     r2 = tlc("AssetTrace", "AssetTrace.cfg", PID, "assets_selftest", trace=st, timeout=600)
     rejected = len({m[2] for m in r2.tuples("MISMATCH")})
     chk.cov["selftest_assets"] = {"corrupted_events": n, "rejected_runs": rejected, "ok": n == 2 and rejected >= 2}
